@@ -284,6 +284,7 @@ class FakeBleClient:
         self._cb = disconnected_callback
         self.log = []                 # ("w"|"r", handle iid, bytes)
         self.gatt_error_at = None     # raise BleakError at the n-th GATT operation from now
+        self.disconnect_delay = 0.0
         self.ops = 0
         self.notify = {}
         self.services = None
@@ -333,6 +334,10 @@ class FakeBleClient:
     async def disconnect(self):
         if not self.is_connected:
             return
+        if self.disconnect_delay:
+            await asyncio.sleep(self.disconnect_delay)      # a real disconnect takes a while; GATT operations in flight still complete
+            if not self.is_connected:
+                return
         self.is_connected = False
         self.acc.reset_link()
         if self._cb:
